@@ -241,23 +241,41 @@ def rule_g12(ctx, rule_id: str = "C04-G12") -> None:
     """Where a stage annotates a copy of a row with values it has just computed (`{"Unbalance": side, **row}`), the
     computed entries must win: in a dict display the later entry overrides the earlier one, so `**row` has to come first.
     Otherwise a column of that name that travels with the input shadows the fresh value and routes the row wrongly."""
+    from ..pipeline import Pipeline
+
     ctx.rule(rule_id, "computed annotations are not shadowed by keys unpacked from the row afterwards", 0)
-    prog = ctx.prog
-    n = 0
-    for q in sorted(ctx.pipeline_reachable()):
-        f = prog.functions.get(q)
-        if f is None or not q.startswith("synrbl."):
+    pl = Pipeline(ctx)
+    n, seen = 0, set()
+    for st in pl.stages:
+        f = st.callee
+        if f.qualname in seen or st.inline:
             continue
+        seen.add(f.qualname)
+        names = f.params[1:] if (f.cls is not None and not f.is_static) else f.params
+        root = None
+        for i, a_ in enumerate(st.call.args):
+            if isinstance(a_, ast.Name) and a_.id == pl.rows_param and i < len(names):
+                root = names[i]
+        if root is None:
+            continue
+        # names bound to a row: loop variables over the rows parameter (directly, enumerate, zip)
+        row_names = set()
+        for l in own_nodes(f.node):
+            if isinstance(l, (ast.For, ast.comprehension)) and any(isinstance(x, ast.Name) and x.id == root for x in ast.walk(l.iter)):
+                row_names |= {x.id for x in ast.walk(l.target) if isinstance(x, ast.Name)}
         for d in [x for x in own_nodes(f.node) if isinstance(x, ast.Dict)]:
             if None not in d.keys:
                 continue
             first_const = next((i for i, k in enumerate(d.keys) if k is not None), None)
-            late_unpacks = [d.values[i] for i, k in enumerate(d.keys) if k is None and first_const is not None and i > first_const]
             if first_const is None:
                 continue
+            late = [d.values[i] for i, k in enumerate(d.keys) if k is None and i > first_const and isinstance(d.values[i], ast.Name) and d.values[i].id in row_names]
+            unp = [d.values[i] for i, k in enumerate(d.keys) if k is None and isinstance(d.values[i], ast.Name) and d.values[i].id in row_names]
+            if not unp:
+                continue
             n += 1
-            ctx.instance(rule_id, "%s: %s" % (q.split("synrbl.", 1)[-1], unparse(d)[:70]), f.loc(d), ok=not late_unpacks)
-            for u in late_unpacks:
-                ctx.finding(rule_id, "%s:row-keys-shadow-annotations" % q.split("synrbl.", 1)[-1], f.loc(d), "%s builds %s: the keys unpacked from %s come after the computed entries and override them, so a column of the same name in the input decides instead of the value just computed" % (f.name, unparse(d)[:60], unparse(u)[:30]))
+            ctx.instance(rule_id, "%s: %s" % (f.qualname.split("synrbl.", 1)[-1], unparse(d)[:70]), f.loc(d), ok=not late)
+            for u in late:
+                ctx.finding(rule_id, "%s:row-keys-shadow-annotations" % f.qualname.split("synrbl.", 1)[-1], f.loc(d), "%s builds %s: the keys unpacked from the row %s come after the computed entries and override them, so a column of the same name in the input decides instead of the value just computed" % (f.name, unparse(d)[:60], unparse(u)[:30]))
     if n == 0:
-        ctx.note("%s: no dict display mixes computed entries with an unpacked row on the pipeline path" % rule_id)
+        ctx.note("%s: no stage builds a dict from computed entries and an unpacked row on this tree" % rule_id)
